@@ -18,6 +18,10 @@ CHECKS = {
    "exhaustive enumeration of operation sequences on a replica's mount: full rollback and WAL transaction scripts continued past refusals with every extra mutating operation inserted at every position; digest compared after every operation",
    "On a connected, caught-up replica the 28-step rollback script (with and without a left-over journal) and the 23-step WAL script are run through the real FUSE handlers with each of 35 extra operations (writes of every alignment, truncates, journal/WAL/SHM create-write-truncate-unlink, lock and unlock incl. the WAL capture trigger, database unlink, /import to the replica, a primary commit) inserted at every position; after every single operation the replica's position, logical image and LTX directory contents must be unchanged, page/journal/WAL writes must fail with EACCES, and modes must be 0444/0555 on the replica vs 0666/0777 on the primary; the position moves only when the primary commits.",
    "Handler methods are called directly (no kernel permission check). The part of C07 about authority lost in the middle of a commit needs the schedule engine and is not claimed by this check yet.", "§4 C07"),
+ "C08": ("exploration", "E2-deviation-scripts",
+   "deviation-bounded exhaustive search over lease-service answer scripts and environment events (bound 2 quick / 3 thorough) on real stores on the fake clock, monitors evaluated every 0.5 fake seconds",
+   "For each of 30 configurations (candidate x stored cluster ID x service cluster ID x {alone, joining a primary M, primary with replica M}) every script in which the lease service deviates from the truthful answer at most twice (Acquire: held/error; AcquireExisting: error; Renew: expired / error / errors from now on; PrimaryInfo: none / error / stale; ClusterID and SetClusterID: error) or the environment issues Demote, Handoff(unknown) or Handoff(M) at 5-second marks is run for 40 fake seconds (about 1.6x10^5 scripts); monitors: primary only with a granted, un-expired lease renewed within TTL+2 s, primary context cancelled on loss, each lease destroyed exactly once unless handed off (then never), non-candidate never acquires, no primary or replication across differing cluster IDs, stored ID never changes, handoff only to a subscribed node, local commits succeed only on a primary.",
+   "Lease service is the in-memory SimLeaser; the Consul leaser against a fake Consul endpoint and the static leaser's trivial behaviour are not separately explored. Decisions of the node under test only.", "§4 C08"),
  "C09": ("model_checking", "E1-histories",
    "chain monitor at every state of every cluster search plus a dedicated explicit-state BFS over retention histories with a removed-set oracle per sweep",
    "Dedicated BFS (depth 4 quick / 5 thorough) over commits, monotone ageing of LTX files, high-water-mark settings around the current TXID, sweeps with retention 0 / 1 ns / 10 min on primary and replica, with and without a backup client, partitions, restarts, drops, re-creation, import and a lagging replica behind a trimmed log: every sweep's removed set must exclude the newest file, contain only files older than the period, and with a backup client only files below the high-water mark; the chain monitor (contiguity, pre=post linkage, per-file CRC, end = DB.Pos(), no temporary file listed, snapshot leaves only itself) is evaluated on every node at every state.",
